@@ -57,6 +57,11 @@ def run_models(ctx, rng, N):
             p1 = n + 2
         X = Z.data2d(rng, n, p1, "x", cplx=sp.cplx, red=sp.ordered)
         Y = Z.data2d(rng, n, p2, "y", cplx=sp.cplx, red=sp.ordered)
+        # fields in small or large physical units (the statements are about the data as given)
+        if rng.random() < 0.4:
+            X = X * float(10.0 ** rng.integers(-6, 4))
+            Y = Y * float(10.0 ** rng.integers(-6, 4))
+            ctx.dist["c09:rescaled-fields"] += 1
         # lagged / differently stamped second field: rows are paired by position, the sample labels of Y differ
         lag = [None, "shifted", "disjoint"][int(rng.integers(0, 3))] if rng.random() < 0.4 else None
         if lag:
